@@ -82,7 +82,7 @@ func (g *gen) instr(b *ssa.BasicBlock, idx int, ins ssa.Instruction) {
 	switch ins := ins.(type) {
 	case *ssa.DebugRef:
 		if obj := ins.Object(); obj != nil {
-			if _, isVar := obj.(*types.Var); isVar {
+			if v, isVar := obj.(*types.Var); isVar && !v.IsField() {
 				if _, known := g.vals[ins.X]; known || isConstLike(ins.X) {
 					if a, ok := g.allocVars[obj.Pos()]; ok && a.Comment == obj.Name() {
 						// an address-taken variable: its cell is the truth, not the last value assigned
